@@ -53,7 +53,7 @@ type c10case struct {
 	Pw     int      `json:"pw,omitempty"`    // wire: index of the right password
 }
 
-var c10users = []string{"admin", "user-01", "cam user", "Ünal", "readuser", `WORKGROUP\operator`, "semi;colon=eq,comma"}
+var c10users = []string{"admin", "user-01", "cam user", "Ünal", "readuser", `WORKGROUP\operator`, "semi;colon=eq,comma", " padded "}
 
 var c10passwords = []string{
 	"secret",                   // 0
@@ -67,6 +67,8 @@ var c10passwords = []string{
 	"p@ss/w0rd=+,;",            // 8
 	"trailing:",                // 9
 	"x y:z",                    // 10
+	"ends with a space ",       // 11
+	" starts with one",         // 12
 }
 
 var c10realms = []string{"IP Camera(1234)", "ipcam", "Realm, with=comma", "réalm 2", `DOMAIN\cams`}
@@ -87,6 +89,8 @@ func c10why(pass string) string {
 		return "pass_empty"
 	case len(pass) > 64:
 		return "pass_long"
+	case strings.HasPrefix(pass, " ") || strings.HasSuffix(pass, " "):
+		return "pass_outer_space"
 	case strings.Contains(pass, " "):
 		return "pass_with_space"
 	case strings.IndexFunc(pass, func(r rune) bool { return r > 127 }) >= 0:
